@@ -113,16 +113,19 @@ _cs_matches_filter_(struct qb_log_callsite *cs,
 	case QB_LOG_FILTER_FUNCTION:
 		next = text;
 		do {
-			char token[500];
+			const char *name;
+			size_t token_len;
+
 			offset = next;
 			next = strchrnul(offset, ',');
-			snprintf(token, 499, "%.*s", (int)(next - offset), offset);
+			token_len = next - offset;
 
-			if (type == QB_LOG_FILTER_FILE) {
-				match = (strcmp(cs->filename, token) == 0) ? 1 : 0;
-			} else {
-				match = (strcmp(cs->function, token) == 0) ? 1 : 0;
-			}
+			/* compare in place: a copy of the alternative would
+			 * put a limit on its length */
+			name = (type == QB_LOG_FILTER_FILE) ?
+				cs->filename : cs->function;
+			match = (strlen(name) == token_len &&
+				 strncmp(name, offset, token_len) == 0) ? 1 : 0;
 			if (!match && next[0] != 0) {
 				next++;
 			}
